@@ -44,15 +44,19 @@ type chaos struct {
 	viol     []string
 	known    []string
 	rawDecor bool // a hand-assembled decoration is in use: the text output oracle does not apply
+	left     map[string]bool // tables an out-of-domain input was given to: no output oracle for them, differences on them recorded only
 	hostile  bool // an alignment value that is no Alignment, a hand-assembled decoration: outside every property's domain
 }
 
 // leave: the case sets an input no property speaks about; say so once, in both streams
-func (s *chaos) leave() {
-	if !s.hostile {
-		s.hostile = true
-		s.g.do("leftdomain")
+func (s *chaos) leave(tables ...string) {
+	for _, t := range tables {
+		if !s.left[t] {
+			s.left[t] = true
+			s.g.do("leftdomain " + t)
+		}
 	}
+	s.hostile = len(s.left) > 0
 }
 
 func (s *chaos) newItem() string {
@@ -217,7 +221,7 @@ func (s *chaos) build() {
 				if !inT {
 					// one *Row in two tables: it knows only the table it joined last, so the other one no
 					// longer hears of cells added to it — outside what the properties describe
-					s.leave()
+					s.leave(s.tabs...)
 				}
 				g.do("addrow " + t + " " + row)
 				s.rows[t] = append(s.rows[t], row)
@@ -268,7 +272,12 @@ func (s *chaos) props() {
 			val = r.pick([]string{"a1", "a2", "a3", "nil"})
 			if r.chance(1, 12) {
 				val = r.pick([]string{"a99999", "u5", "b1"})
-				s.leave()
+				switch o[0] {
+				case 'c': // a column of one table: what the renderers read
+					s.leave("T" + strings.Split(o, ":")[1])
+				case 'h': // a column handle: of whichever table
+					s.leave(s.tabs...)
+				}
 			}
 		case "skip":
 			val = r.pick([]string{"b0", "b1", "nil"})
@@ -505,7 +514,7 @@ func (s *chaos) render() {
 
 // judge: the focus format's output oracle, where its domain is not left
 func (s *chaos) judge(kind string, w chaosW, res string) {
-	if kind != s.focus || s.hostile || res == "PANIC" {
+	if kind != s.focus || s.left[w.t] || res == "PANIC" {
 		return
 	}
 	g := s.g
@@ -540,7 +549,7 @@ func chaosStream(prop, focus string, alpha []string, weights [7]int) stream {
 		oracleDoc: "chaos: 25-60 random operations of every kind (build, properties, callbacks, items, observation, wrapper/registry settings, renders) on one or two tables, weighted towards " + focus + "; judged by the comparison with the model on every line, plus the " + focus + " output oracle while no operation has left its domain",
 		run: func(g *Gen, c int) ([]string, []string, bool) {
 			r := g.r
-			s := &chaos{g: g, r: r, focus: focus, alpha: alpha, rows: map[string][]string{}, seps: map[string]bool{}}
+			s := &chaos{g: g, r: r, focus: focus, alpha: alpha, rows: map[string][]string{}, seps: map[string]bool{}, left: map[string]bool{}}
 			s.tabs = append(s.tabs, g.do("newtable"))
 			if c%4 == 3 {
 				s.tabs = append(s.tabs, g.do("newtable"))
